@@ -386,6 +386,10 @@ func body11(c *sched.Ctl, cs Case, v *ev.Verdict) {
 			hm.Unlock()
 			ctx, cancel := context.WithCancel(context.Background())
 			a.cancel = cancel
+			if a.id%3 == 0 {
+				// a context that ends like an expired deadline: awaits must still answer context.Canceled
+				ctx = deadlineLike{ctx}
+			}
 			if op.Pre {
 				cancel()
 				a.cancelled = true
